@@ -437,7 +437,7 @@ PROPS = {
                                                floors=[("exact literal parser reachable from QSread_prob", ["mpq_QSread_prob"], "mpq_EGlpNumReadStrXc", 1),
                                                        ("exact literal parser reachable from ILLget_value", ["mpq_ILLget_value"], "mpq_EGlpNumReadStrXc", 1)]),
                   lambda prog, tier: rescan.run(prog), lambda prog, tier: decacc.run(prog), lambda prog, tier: defaults.run(prog), lambda prog, tier: defaults.run_bndflag(prog), lambda prog, tier: defaults.run_msgmeans(prog), lambda prog, tier: defaults.run_defaultpair(prog), lambda prog, tier: pastcol.run_appendpos(prog), lambda prog, tier: strscan.run(prog), lambda prog, tier: strscan.run_advance(prog),
-                  lambda prog, tier: rawidx.run(prog), lambda prog, tier: digitseen.run(prog), lambda prog, tier: digitseen.run_expmark(prog), lambda prog, tier: stalechar.run(prog)],
+                  lambda prog, tier: rawidx.run(prog), lambda prog, tier: digitseen.run(prog), lambda prog, tier: digitseen.run_expmark(prog), lambda prog, tier: digitseen.run_parts(prog), lambda prog, tier: stalechar.run(prog)],
         "technique": "lossy-conversion sink census over the reader call-graph closure of the rational instantiation (type-resolved, after "
                      "preprocessing: the #ifdef between the exact and the double literal reader is resolved as the build resolves it)",
         "explanation": "Decides one structural clause of C10: on every call path from mpq_QSread_prob / mpq_QSget_prob to the stored problem "
@@ -460,7 +460,7 @@ PROPS = {
                   lambda prog, tier: strscan.run(prog), lambda prog, tier: strscan.run_advance(prog),
                   lambda prog, tier: rawidx.run(prog),
                   lambda prog, tier: idx.run(prog),
-                  lambda prog, tier: lenm1.run(prog), lambda prog, tier: decacc.run(prog), lambda prog, tier: digitseen.run(prog), lambda prog, tier: digitseen.run_expmark(prog), lambda prog, tier: stalechar.run(prog), lambda prog, tier: strcap.run(prog), lambda prog, tier: nulterm.run(prog),
+                  lambda prog, tier: lenm1.run(prog), lambda prog, tier: decacc.run(prog), lambda prog, tier: digitseen.run(prog), lambda prog, tier: digitseen.run_expmark(prog), lambda prog, tier: digitseen.run_parts(prog), lambda prog, tier: stalechar.run(prog), lambda prog, tier: strcap.run(prog), lambda prog, tier: nulterm.run(prog),
                   lambda prog, tier: fmt.run(prog, scope=lambda f, _r=set(prog.reachable([prog.require_fn(r).key for r in
                                                                                           ("mpq_QSread_prob", "mpq_QSget_prob", "mpq_QSread_basis", "mpq_QSread_and_load_basis")])): f.key in _r, floor=200)],
         "technique": "census and classification of buffer-writing calls in the reader call-graph closures (destination array sizes from the "
@@ -895,6 +895,11 @@ for _pid in ("C08", "C09", "C10", "C17"):
     _ADD[_pid]["explanation"] = _ADD[_pid].get("explanation", "") + (
         " (R-APPENDPOS) in functions that use the free tail of the column matrix or enlarge its arrays, every computed column start stored into "
         "matbeg derives from matsize - matfree (the number of non-zeros is not a position: columns without entries own reserved slots).")
+for _pid in ("C10", "C11"):
+    _ADD.setdefault(_pid, {})
+    _ADD[_pid]["explanation"] = _ADD[_pid].get("explanation", "") + (
+        " (R-PARTDIGIT) no return of the fraction scanner hands back a non-zero count on a path on which the '/' case was entered before any digit "
+        "('/5' is no number).")
 _ADD.setdefault("C17", {})
 _ADD["C17"]["explanation"] = _ADD["C17"].get("explanation", "") + (
     " (R-CAPSYNC) a pointer field that is paired with a capacity field (some function allocates it with a computed length and stores that very "
